@@ -13,6 +13,7 @@ From IBL.lib Require Import PyInt.
 From IBL.C01 Require Import Model Proofs Geometry Gains AlignProofs SyncProofs Bisect.
 Require IBL.C08.Model IBL.C08.Proofs IBL.C08.Props.
 Require IBL.C03.F32.
+Require IBL.C11.Model IBL.C11.Proofs IBL.C11.Props.
 From Coq Require Import Permutation.
 Import ListNotations.
 Open Scope Z_scope.
@@ -299,6 +300,32 @@ Theorem C01_bisect_right_is_binary_search :
      chunks_for_interval_bin bounds n i0 i1 = chunks_for_interval bounds n i0 i1).
 Proof. split; [exact bisect_bin_eq|exact chunks_bin_eq]. Qed.
 Print Assumptions C01_bisect_right_is_binary_search.
+
+(* WHOLE FILE (joint with C11's model of Reader.open on an uncompressed int16 file): whatever
+   duration the .meta claims (more, fewer or as many frames; ignore_warnings only gates a log
+   line) and whatever incomplete trailing frame the file has, the reader exposes exactly
+   k = floor(nbytes / (2 nc)) frames — all the whole frames physically present — and every read
+   (selectors as in C01_read_eq_np_index, negative indices and steps counted from THAT k) is
+   NumPy indexing of the calibrated k x nc array. *)
+Theorem C01_reads_whole_file :
+  forall (A G V : Type) (cal : A -> G -> V) nbytes nc t fs ns0 raw order gain M nsel csel,
+  1 <= nc -> 1 <= nbytes -> nbytes / (2 * nc) <= 2 ^ 50 -> IBL.C11.Proofs.fs_ok fs ->
+  IBL.C11.Model.ns_meta (Some t) fs = IBL.C11.Model.NsOk ns0 ->
+  let k := nbytes / (2 * nc) in
+  let rw := negb (nc * ns0 * 2 =? nbytes) in
+  IBL.C11.Model.open_bin false 2 nbytes nc (Some t) fs =
+    IBL.C11.Model.Opened k nc (if rw then Some (IBL.C11.Model.rl k fs) else Some t) rw /\
+  (rect raw k nc -> order_ok order nc -> zlen gain = nc ->
+   calibrated_sorted cal raw order gain = Some M ->
+   is_fancy nsel && is_fancy csel = false ->
+   ((exists x, sel_positions k nsel = Ok x) \/ (exists x, sel_positions nc csel = Ok x)) ->
+   read cal None raw nc order gain nsel csel = np_index2 M k nc nsel csel).
+Proof.
+  intros A G V cal nbytes nc t fs ns0 raw order gain M nsel csel Hnc Hnb Hk Hfs Hns. cbv zeta. split.
+  - exact (IBL.C11.Props.C11_offline_exposes_floor 2 nbytes nc t fs ns0 Hnc ltac:(lia) Hnb Hk Hfs Hns).
+  - intros Hr Ho Hg. exact (read_eq_np_index cal raw _ nc order gain Hr Ho Hg M nsel csel).
+Qed.
+Print Assumptions C01_reads_whole_file.
 
 (* ---- refuted clauses (faithful model; confirmed on the real code, see notes) ---- *)
 Definition ex_raw : list (list (Z * Z)) :=
